@@ -264,6 +264,7 @@ def run(ctx):
     use_tree_comment_carrier(ctx, "R03-h")
     list_item_extent_covers_printer(ctx, "R03-i")
     import_grouping_is_a_partition(ctx, "R03-j")
+    single_line_bodies_have_no_comment(ctx, "R03-k")
     D = r.rule("R03-d", "lists::write_list (with the closures it owns) reads every comment-bearing field of ListItem: "
                         "pre_comment, pre_comment_style, post_comment, new_lines")
     wl = p.named("write_list", within="rustfmt_nightly::lists")
@@ -593,3 +594,54 @@ def import_grouping_is_a_partition(ctx, rid):
                                 "the loop can go on to the next element (or return) without having pushed the current one into a group: "
                                 "the tree, and the comments it carries, vanish from the output", [nx.loc()])
     r.floor(rid, n, 1, "element-taking loops in group_imports")
+
+
+def single_line_bodies_have_no_comment(ctx, rid):
+    """R03-k: a function body is collapsed to `{ stmt }` only when the braces enclose no comment at all"""
+    from absint import explore, vkey, TooManyPaths
+    from common import answer_implies
+    p, r = ctx.p, ctx.r
+    r.rule(rid, "FmtVisitor::single_line_fn (fn_single_line) replaces everything between the braces of a body by the rewrite of its "
+                "one statement and moves `last_pos` past the closing brace: whatever else stood between the braces is not copied "
+                "by anybody.  On every path that returns `Some(\"… { stmt }\")` — the paths that decided `fn_single_line() = true` — "
+                "`block_contains_comment(block)` answered false, directly or through a predicate whose true answer implies it "
+                "(`is_simple_block_stmt`).  A weaker test (\"the rewritten statement contains *a* comment\") loses the comments "
+                "outside the statement")
+    f = p.named("single_line_fn", within="FmtVisitor")
+    if f is None:
+        r.undecidable(rid, "FmtVisitor::single_line_fn not found")
+        return
+    try:
+        paths = explore(f, pure=lambda c: True, max_paths=20000, program=p)
+    except TooManyPaths as e:
+        r.undecidable(rid, str(e))
+        return
+    implied = {}
+    n = 0
+    bad = 0
+    for pa in paths:
+        if pa.end != "ret" or pa.ret is None or not vkey(pa.ret).startswith("Some"):
+            continue
+        if not any("fn_single_line(" in k and v is True for k, v in pa.decisions):
+            continue
+        n += 1
+        ok = any("block_contains_comment(" in k and v is False for k, v in pa.decisions)
+        if not ok:
+            for k, v in pa.decisions:
+                if v is not True or "(" not in k:
+                    continue
+                name = k.split("(", 1)[0]
+                if name not in implied:
+                    hs = [h for h in p.by_crate["rustfmt_nightly"] if h.kind != "Closure" and h.id.endswith(name) and h.locals[0] == "bool"]
+                    implied[name] = len(hs) == 1 and answer_implies(p, hs[0], True, [[("block_contains_comment(", False)]])
+                if implied[name]:
+                    ok = True
+        if not ok:
+            bad += 1
+    r.instance(rid, "single_line_fn: every collapsing path knows the body has no comment", "violation" if bad else "ok",
+               "%s:%d" % (f.file, f.line), "%d collapsing paths" % n)
+    if bad:
+        r.violation(rid, "single_line_fn collapses a body without having established that it contains no comment",
+                    "%d of %d paths that return `{ stmt }` never saw block_contains_comment(block) = false (nor a predicate implying "
+                    "it): comments between the braces but outside the statement vanish" % (bad, n), ["%s:%d" % (f.file, f.line)])
+    r.floor(rid, n, 1, "collapsing paths of single_line_fn")
